@@ -248,19 +248,44 @@ function op_like(req) {
 const OPS = {split: op_split, read: op_read, read_file: op_read_file, write: op_write, query_table: op_query_table, like: op_like, query_csv: op_query_csv,
              ping: async () => ({pong: true, version: rbql.version})};
 
+// A request that the implementation never answers (a promise that is never settled), or that makes it throw outside of any promise
+// chain, must not take the driver down: it is answered with an error object, like any other failure of the implementation.
+let crash_current = null;
+let hangs = 0;
+process.on('uncaughtException', e => { if (crash_current) crash_current(e); else { process.stderr.write(String(e && e.stack || e) + '\n'); process.exit(3); } });
+process.on('unhandledRejection', e => { if (crash_current) crash_current(e); });
+const REQUEST_TIMEOUT_MS = parseInt(process.env.RBQL_VERIF_NODE_TIMEOUT_MS || '20000');
+
 async function main() {
     const rl = readline.createInterface({input: process.stdin, crlfDelay: Infinity});
     for await (const line of rl) {
         if (!line.trim()) continue;
         let resp;
+        let timer = null;
         try {
             let req = JSON.parse(line);
             let fn = OPS[req.op];
             if (!fn) throw new Error('unknown op ' + req.op);
-            resp = await fn(req);
+            if (hangs >= 10) {
+                // circuit breaker: this driver process has seen 10 requests go unanswered; the rest is not run
+                process.stdout.write(JSON.stringify({error: {cls: 'Hang', msg: 'not run: 10 earlier requests of this batch were never answered by the implementation'}, out: [], records: null, warnings: null}) + '\n');
+                continue;
+            }
+            let limit = hangs >= 3 ? Math.min(REQUEST_TIMEOUT_MS, 1000) : REQUEST_TIMEOUT_MS;
+            let guard = new Promise((resolve, reject) => {
+                crash_current = e => resolve({error: {cls: 'Uncaught:' + ((e && e.constructor) ? e.constructor.name : 'unknown'), msg: String(e && e.message !== undefined ? e.message : e)}, out: [], records: null, warnings: null});
+                timer = setTimeout(() => { hangs += 1; resolve({error: {cls: 'Hang', msg: 'the implementation did not answer within ' + limit + ' ms'}, out: [], records: null, warnings: null}); }, limit);
+            });
+            resp = await Promise.race([fn(req), guard]);
         } catch (e) {
-            resp = {driver_error: err_info(e), stack: e && e.stack ? String(e.stack).slice(0, 2000) : null};
+            let stack = e && e.stack ? String(e.stack).slice(0, 2000) : '';
+            if (stack.indexOf('/rbql-js/') !== -1)
+                resp = {error: err_info(e), out: [], records: null, warnings: null};      // raised inside the implementation, where the driver expects no exception
+            else
+                resp = {driver_error: err_info(e), stack: stack};
         }
+        if (timer) clearTimeout(timer);
+        crash_current = null;
         process.stdout.write(JSON.stringify(resp) + '\n');
     }
 }
